@@ -167,6 +167,8 @@ def join_cases(ops):
         for i, s in enumerate(op['steps']):
             st = {'c': s['c'], 'cmd': s['cmd'],
                   'ideal': {'r': s['r'], 'post': s['post'], 'rel': s.get('rel', []), 'tol': s.get('tol', [])}}
+            if 'proto' in s:
+                st['ideal']['proto'] = s['proto']
             if agree:
                 rs = rop['steps'][i]
                 dvs = sorted(set(dvs) | set(rs['dv']))
@@ -177,6 +179,8 @@ def join_cases(ops):
                     if dvs:
                         st['real'] = {'r': rs['r'], 'post': rs['post'], 'rel': rs.get('rel', []),
                                       'tol': rs.get('tol', []), 'dv': dvs}
+                        if 'proto' in rs:
+                            st['real']['proto'] = rs['proto']
             steps.append(st)
         cases.append({'fam': op.get('fam', ''), 'pre': op['pre'], 'steps': steps})
     cases.sort(key=lambda c: json.dumps([c['pre'], [s['cmd'] for s in c['steps']]], sort_keys=True))
@@ -196,10 +200,14 @@ def walk_cases(ops):
         for s in op['steps']:
             st = {'c': s['c'], 'cmd': s['cmd'],
                   'ideal': {'r': s['r'], 'post': s['post'], 'rel': s.get('rel', []), 'tol': s.get('tol', [])}}
+            if 'proto' in s:
+                st['ideal']['proto'] = s['proto']
             rl = s.get('real') or {}
             if rl.get('dv') and not _same_expect(s, rl):
                 st['real'] = {'r': rl['r'], 'post': rl['post'], 'rel': rl.get('rel', []), 'tol': rl.get('tol', []),
                               'dv': sorted(rl['dv'])}
+                if 'proto' in rl:
+                    st['real']['proto'] = rl['proto']
             steps.append(st)
         cases.append({'fam': op.get('fam', ''), 'pre': op['pre'], 'steps': steps, 'walk': True})
     return cases
